@@ -258,7 +258,12 @@ def add_frame_vc(ex, con, entry, s, how):
 def solve_vc(vc, timeout_ms):
     """returns (status, seconds, backend, model|None).  status: proved | refuted | unknown"""
     t0 = time.time()
-    has_q = any(_has_quant(p) for p in vc.pc) or (vc.goal is not None and _has_quant(vc.goal))
+    from .delambda import prepare
+    orig_vc = vc
+    prepped = prepare(list(vc.pc) + ([z3.Not(vc.goal)] if vc.goal is not None else []))
+    vc = VC(vc.name, vc.kind, prepped[:-1] if orig_vc.goal is not None else prepped, None, vc.path, vc.note, vc.clause, vc.state)
+    neg_goal = prepped[-1] if orig_vc.goal is not None else None
+    has_q = any(_has_quant(p) for p in prepped)
     if has_q and vc.kind != 'cover':
         # first pass: E-matching only (fast unsat); second pass below with MBQI for counter-models
         s = z3.Solver()
@@ -266,7 +271,7 @@ def solve_vc(vc, timeout_ms):
         s.set('smt.mbqi', False)
         for p in vc.pc:
             s.add(p)
-        s.add(z3.Not(vc.goal))
+        s.add(neg_goal)
         if s.check() == z3.unsat:
             return 'proved', time.time() - t0, 'z3', None
     s = z3.Solver()
@@ -281,7 +286,7 @@ def solve_vc(vc, timeout_ms):
         if r == z3.unsat:
             return 'refuted', dt, 'z3', None
         return 'unknown', dt, 'z3', None
-    s.add(z3.Not(vc.goal))
+    s.add(neg_goal)
     r = s.check()
     dt = time.time() - t0
     if r == z3.unsat:
